@@ -5,6 +5,7 @@ pub mod c06;
 pub mod c12;
 pub mod c15;
 pub mod c16;
+pub mod c19;
 pub mod dbx;
 pub mod hist;
 pub mod sqlgen;
